@@ -162,8 +162,17 @@ def resync_rule(ck, F, h, loop):
         if o[0] == 'call' and callee_is(F, o[2], 'H263State::is_sorenson'):
             arms = {int(v): to for v, to in g.blocks[a]['term']['arms']}
             conds.append(arms.get(0) == s)
+    # is_sorenson() itself: the SORENSON_SPARK_BITSTREAM bit of the decoder options
+    from ..dataflow import ematch
+    bs = F.body('h263_rs::decoder::state::H263State::is_sorenson')
+    es = expr_of(F, bs, {'o': 'copy', 'p': {'l': 0, 'proj': []}})
+    ads = F.adt('h263_rs::decoder::state::H263State')['variants'][0]['fields']
+    fi = [f.get('name') for f in ads].index('decoder_options')
+    if ematch(('callp', 'DecoderOption>::contains', ('param', 1, (fi,)), ('item', 'decoder::types::DecoderOption::SORENSON_SPARK_BITSTREAM')), es) is None:
+        ck.violation('RS', 'RS : is_sorenson : form', where_of(bs), 'is_sorenson() is %s, expected decoder_options.contains(SORENSON_SPARK_BITSTREAM)' % expr_str(es, bs.get('debug', {})))
+        conds = conds + ['is_sorenson']
     if conds == [True]:
-        ck.ok('RS', 'decode_gob is attempted only when !is_sorenson()', where_of(b, gbb))
+        ck.ok('RS', 'decode_gob is attempted only when !is_sorenson(), and is_sorenson() = decoder_options.contains(SORENSON_SPARK_BITSTREAM)', where_of(b, gbb))
     else:
         ck.violation('RS', 'RS : closure : resync mode guard', where_of(b, gbb), 'decode_gob is not guarded by !is_sorenson() (found %s)' % conds)
 
